@@ -31,12 +31,13 @@ func (t T) String() string {
 }
 
 type ValRow struct {
-	T     T               `json:"t"`
-	V     json.RawMessage `json:"v"`
-	Valid bool            `json:"valid"`
-	Fv    json.RawMessage `json:"fv"`
-	Ferr  bool            `json:"ferr"`
-	Fatal bool            `json:"fatal"`
+	T       T               `json:"t"`
+	V       json.RawMessage `json:"v"`
+	Valid   bool            `json:"valid"`
+	Accepts bool            `json:"accepts"`
+	Fv      json.RawMessage `json:"fv"`
+	Ferr    bool            `json:"ferr"`
+	Fatal   bool            `json:"fatal"`
 }
 
 type AssignRow struct {
@@ -74,7 +75,8 @@ struct S1(int a, string b,)
 struct S2(int a,)
 struct S3(S1 s, int[] xs,)
 struct S4(float a, txt b,)
-stage DUMMY(in S1 x1, in S2 x2, in S3 x3, in S4 x4, out int y, src exec "x",)
+struct S5(map<int> per, int n,)
+stage DUMMY(in S1 x1, in S2 x2, in S3 x3, in S4 x4, in S5 x5, out int y, src exec "x",)
 `
 
 var keyTokens = strings.NewReplacer("<BEL>", "\a", "<DEL>", "\x7f")
@@ -201,7 +203,13 @@ func readRows(path string, each func([]byte) error) error {
 }
 
 // Main: vh types-replay <values.ndjson> <assign.ndjson> <unsound.ndjson>
+type heldResult struct {
+	out, saved []byte
+	typ, input string
+}
+
 func Main(args []string) int {
+	var held []heldResult
 	_, _, ast, err := syntax.ParseSourceBytes([]byte(src), "types.mro", nil, false)
 	if err != nil {
 		fmt.Fprintln(os.Stderr, "compile:", err)
@@ -250,11 +258,18 @@ func Main(args []string) int {
 		for form := 0; form < 3; form++ {
 			b := render(r.V, form)
 			rep.Renderings++
+			var al strings.Builder
+			if hardErr := ty.IsValidJson(b, &al, lookup); (hardErr == nil) != r.Accepts {
+				viol("validation", r.T, T{}, b, "IsValidJson returns error = %v, a value of this shape must %sbe an error", hardErr, map[bool]string{true: "not ", false: ""}[r.Accepts])
+			}
 			ok, why := clean(ty, b)
 			if ok != r.Valid {
 				viol("validation", r.T, T{}, b, "IsValidJson says clean=%v, the declared shape says %v (%s)", ok, r.Valid, why)
 			}
 			out, fatal, ferr := ty.FilterJson(b, lookup)
+			// results are kept (mrp filters every binding of a stage and serialises them
+			// afterwards): a later call must not change what an earlier one returned
+			held = append(held, heldResult{out, append([]byte(nil), out...), r.T.String(), string(b)})
 			if (ferr != nil) != r.Ferr {
 				viol("filter", r.T, T{}, b, "FilterJson error = %v, expected an error: %v", ferr, r.Ferr)
 			}
@@ -291,6 +306,12 @@ func Main(args []string) int {
 	if err != nil {
 		fmt.Fprintln(os.Stderr, err)
 		return 2
+	}
+	for _, h := range held {
+		if !bytes.Equal(h.out, h.saved) {
+			viol("filter", T{B: h.typ}, T{}, []byte(h.input), "the value FilterJson returned (%s) was changed by later calls into %q", string(h.saved), string(h.out))
+			break
+		}
 	}
 	predicted := map[string]bool{}
 	readRows(args[2], func(line []byte) error {
